@@ -130,3 +130,32 @@ claim("C08",
       "int() on rank-1 arrays. The reconstructed score's values are not decided.",
       _NOTE, "ast rules: loop-variable liveness, sibling-block agreement, def-use agreement of clock variables, dispatch "
              "lifting", "DESIGN.md §4 C08")
+
+claim("C20",
+      "Static ownership/effect analysis (level other): for every function of the package a summary of the parameters it "
+      "mutates (with the call path to the store) is computed to a fixpoint; each of the ~50 read-only entry points the "
+      "property names must not have its argument in that summary. Also decides that Score/Performance hand out a fresh "
+      "iterator per iteration with len/getitem/iter reading one list, and that no reachable function writes module-level "
+      "state. Known findings (add_segments through get_paths, the number_of_staves cache, the in-place alignment rewrite) "
+      "are listed in known_findings.json. Bit-identical repeat results beyond the absence of hidden state are not decided.",
+      _NOTE, "interprocedural ownership/effect abstract interpretation over ast + CFG with summaries to a fixpoint; "
+             "container-protocol rule; module-state rule", "DESIGN.md §3 F1, §4 C20")
+
+claim("C09",
+      "Static analysis (level other): decides that the unfolding entry points do not mutate the original part (F1; the "
+      "add_segments finding is known), that the copy loop excludes every repeat/ending/jump class, that copies are "
+      "entered in o_map and get replace_refs(o_map), that every reference attribute the property names is registered in "
+      "_ref_attrs by the class assigning it, that the new part's points are re-linked pairwise, that update_ids reaches "
+      "its single guarded use, and that no int() of a rank-1 array lies on an unfolding path. Path validity/counts are "
+      "not decided.",
+      _NOTE, "ownership/effect analysis + structural pairing rules on create_variant_part + class-hierarchy scan of "
+             "reference attributes", "DESIGN.md §4 C09")
+
+claim("C16",
+      "Static analysis (level other): decides copy-then-mutate discipline of transpose (argument not in the mutates "
+      "summary; every in-place transposer call receives an object derived from the deep copy; the copy is returned), "
+      "coverage (both branches loop over an unfiltered note collection, resolved through the property getter's body), "
+      "and agreement of the step/interval tables the arithmetic reads. The step/octave/alteration arithmetic itself is "
+      "not decided.",
+      _NOTE, "ownership/effect analysis with per-call-site argument provenance; property-body resolution; "
+             "constant-folded tables", "DESIGN.md §4 C16")
